@@ -12,6 +12,7 @@ fn div_rem_in_place_same_len(
     decreases rhs@.len(), 1int
 @*/
 {
+    /*@ proof { reveal(div_post); } @*/
     let n = rhs.len();
     assert!(n > div::THRESHOLD_SIMPLE && lhs.len() == 2 * n);
     // To guarantee n_lo >= 2.
